@@ -23,7 +23,10 @@ from harness.core import Component, Ctx, Infra, b2f, f2b, run_driver, shrink_cas
 RULE = ("plans over a small alphabet of targets (duplicates, ids ordered around ':', rare ckey collisions), magnitudes biased to "
         "{cap-ulp, cap, cap+ulp, 0, -0, denormal, 1e16, 1e308, equal magnitudes}, L2 cap biased to the plan's own norm +-ulp, churn cap in "
         "{0,1,n-1,n,n+1}, ops with cooldown histories at turn-last in {cd-1, cd, cd+1}; every input shape t4_filter accepts; a case is "
-        "non-trivial when it merges duplicates, blocks an op, clamps, scales, drops a tail or uses a non-default input shape; distinct by canonical JSON")
+        "non-trivial when it merges duplicates, blocks an op, clamps, scales, drops a tail or uses a non-default input shape; distinct by canonical JSON. "
+        "HISTORY stream: 2-4 real t4_filter calls in one process on the SAME ctx/config/state/plan objects, edited in place between calls (caps, "
+        "cooldown map, last-use turns, turn id, deltas); each call checked against the model and all monitors on its current argument values and "
+        "against the same call on freshly built objects")
 ASSUMPTIONS = [
     "delta values are finite floats/ints (NaN/inf deltas are outside 'magnitudes'; finite inputs never produce NaN inside the pipeline)",
     "target kind/id/attr and op kinds are str; `str()` of exotic kind objects is not modelled",
@@ -44,7 +47,9 @@ CLAIM = {
              "subset/sorted/unique are monitored exactly at Float, the L2 cap with slack 1e-9 (float-gap probe reports how often the exact "
              "predicate is off by rounding). Order-independence under float addition was false of the original code ([1e16,1,-1e16]); repaired by "
              "proposed_fixes/C03_combine_sum_canonical_order.diff (regression case in corpus, monitor key order.float-sum). It is still false "
-             "for colliding string ckeys (known finding, negation witness in Lean, reproduced on the real code). Purity, argument shapes "
+             "for colliding string ckeys (known finding, negation witness in Lean, reproduced on the real code). 'Depends on nothing but its arguments' "
+             "is a theorem of the model (a function) and is tied to the code by the HISTORY stream (call sequences on reused, in-place edited objects "
+             "vs fresh objects; module-level memo/stale-state bugs show as history_dependence). Purity, argument shapes "
              "(_get_cfg, _get_plan_*, _get_last_turn_map, _get_turn, _get_op_kind) and metrics.caps are covered by correspondence only. "
              "`delta_norm_cap_l2 = NaN` is accepted by the validator and makes every approved delta NaN (finding, belongs with C14); "
              "`delta_norm_cap_l2 < 1e-150` (accepted too) lets squares underflow so the L2 cap is not enforced (finding l2.tiny-cap)."),
@@ -801,6 +806,276 @@ def float_gap_probe(ctx: Ctx, n: int) -> None:
     }
 
 
+
+# ---------------------------------------------------------------------------------------------
+# HISTORY stream — "depends on nothing but its arguments", across calls in ONE process
+# ---------------------------------------------------------------------------------------------
+# A history is a list of 2-4 ordinary cases c_0..c_n with the same input shapes.  The real objects
+# (ctx, ctx.config, the t4 dict, state, state.meta, the last-use map, the plan and its lists) are
+# built ONCE from c_0; before call i they are edited IN PLACE to carry the values of c_i (caps,
+# cooldown map, last-use turns, turn id, now and then the deltas).  Every call is compared
+# (a) with the model and all envelope monitors on the CURRENT values c_i, and
+# (b) with the same call on freshly built objects (`history_dependence`).
+
+HIST_COMP = "t4.history"
+
+
+def _last_map_obj(state: Any, sf: str) -> Dict[str, Any]:
+    if sf == "obj_obj":
+        return state.meta.cooldowns
+    if sf == "obj_dict":
+        return state.meta["cooldowns"]
+    if sf == "dict_dict":
+        return state["meta"]["cooldowns"]
+    return state["meta"].cooldowns  # dict_obj
+
+
+def mutate_in_place(objs, prev: dict, new: dict) -> None:
+    ctx, state, plan = objs
+    t4 = ctx.config.t4
+    nc = new["cfg"]
+    for kk in ("delta_norm_cap_l2", "novelty_cap_per_node"):
+        if kk in nc:
+            t4[kk] = b2f(nc[kk])
+        else:
+            t4.pop(kk, None)
+    if "churn_cap_edges" in nc:
+        t4["churn_cap_edges"] = nc["churn_cap_edges"]
+    else:
+        t4.pop("churn_cap_edges", None)
+    if "cooldowns" in nc:
+        val = nc["cooldowns"]
+        cur = t4.get("cooldowns")
+        if isinstance(val, dict) and isinstance(cur, dict) and not new.get("cd_replace"):
+            cur.clear()
+            cur.update(val)
+        else:
+            t4["cooldowns"] = dict(val) if isinstance(val, dict) else val
+    else:
+        t4.pop("cooldowns", None)
+    new_names = [n for n, _ in new["turn"]]
+    for n, _ in prev["turn"]:
+        if n not in new_names:
+            delattr(ctx, n)
+    for n, v in new["turn"]:
+        setattr(ctx, n, vs_decode(v))
+    m = _last_map_obj(state, new["state_form"])
+    m.clear()
+    m.update({kind: vs_decode(v) for kind, v in new["last"]})
+    if new["deltas"] != prev["deltas"] or new["ops"] != prev["ops"]:
+        _c, _s, p2 = build_args(new)
+        if new["plan_form"] == "dict":
+            plan["deltas"][:] = p2["deltas"]
+            plan["ops"][:] = p2["ops"]
+        else:
+            plan.deltas[:] = p2.deltas
+            plan.ops[:] = p2.ops
+
+
+def gen_history(rng: random.Random) -> dict:
+    for _ in range(6):
+        base = COMP.gen_stream(rng, rng.choice(["valid", "valid", "valid", "boundary"]))
+        if len(base["deltas"]) >= 3:
+            break
+    base["stream"] = "history"
+    if base["cfg_form"] == "nondict":
+        base["cfg_form"] = "raw"
+        base.pop("cfg_variant", None)
+    base["plan_form"] = rng.choice(["dict", "obj"])
+    base["state_form"] = rng.choice(["obj_obj", "obj_obj", "obj_dict", "dict_dict", "dict_obj"])
+    if not base["turn"]:
+        base["turn"] = [["turn_id", {"int": 0}]]
+    hist = [base]
+    for _step in range(rng.choice([1, 1, 2, 3])):
+        c = copy.deepcopy(hist[-1])
+        c.pop("cd_replace", None)
+        cfg = c["cfg"]
+        l2, nov, k, cds = eff_cfg(c)
+        edits = []
+        if rng.random() < 0.6:
+            cfg["novelty_cap_per_node"] = f2b(rng.choice([0.1, 0.05, nov / 2, min(1.0, nov * 2), 0.3, 1.0, nxt(nov, False)]))
+            edits.append("nov")
+        if rng.random() < 0.6:
+            cfg["delta_norm_cap_l2"] = f2b(rng.choice([0.2, 0.1, l2 / 2, 1.5, l2 * 3, nxt(l2, False)]) if math.isfinite(l2) else 0.2)
+            edits.append("l2")
+        if rng.random() < 0.6:
+            cfg["churn_cap_edges"] = rng.choice([3, 0, 1, 2, 64, max(0, k - 1), k + 1])
+            edits.append("k")
+        if rng.random() < 0.45:
+            cds2 = dict(cds)
+            kk = rng.choice(KINDS)
+            if kk in cds2 and rng.random() < 0.4:
+                del cds2[kk]
+            else:
+                cds2[kk] = rng.choice([0, 1, 2, 3, 10])
+            cfg["cooldowns"] = cds2
+            if rng.random() < 0.3:
+                c["cd_replace"] = True
+            edits.append("cooldowns")
+        tvals = [vs_decode(v) for _n, v in c["turn"]]
+        turn = next((int(x) for x in tvals if isinstance(x, int)), 0)
+        if rng.random() < 0.5:
+            turn = rng.choice([turn + 1, turn + 1, turn + 3, 0, turn + 10])
+            c["turn"] = [[n, ({"int": turn} if isinstance(vs_decode(v), int) else v)] for n, v in c["turn"]]
+            edits.append("turn")
+        if rng.random() < 0.45:
+            kk = rng.choice(KINDS)
+            last = [p for p in c["last"] if p[0] != kk]
+            if rng.random() < 0.8:
+                last.append([kk, {"int": turn - rng.choice([0, 1, 2, 3, -1])}])
+            c["last"] = last
+            edits.append("last")
+        if rng.random() < 0.2 and c["deltas"]:
+            ds = c["deltas"]
+            r = rng.random()
+            if r < 0.4:
+                ds.pop(rng.randrange(len(ds)))
+            elif r < 0.7:
+                ds.append(copy.deepcopy(rng.choice(ds)))
+            else:
+                ds[rng.randrange(len(ds))]["delta"] = vs_float(rng.uniform(-1, 1))
+            edits.append("deltas")
+        c["edits"] = edits
+        hist.append(c)
+    return {"stream": "history", "history": hist}
+
+
+def run_history(hcase: dict) -> List[dict]:
+    """Drive the real t4_filter through the whole history on ONE set of objects."""
+    from clematis.engine.stages.t4 import t4_filter
+    hist = hcase["history"]
+    objs = build_args(hist[0])
+    outs = []
+    for i, c in enumerate(hist):
+        try:
+            if i > 0:
+                mutate_in_place(objs, hist[i - 1], c)
+            before = snap(objs)
+            res = t4_filter(objs[0], objs[1], None, None, objs[2], None)
+            after = snap(objs)
+            caps = res.metrics.get("caps", {})
+            io: Any = {"out": canon_result(res), "pure": before == after,
+                       "caps": [f2b(float(caps.get("delta_norm_cap_l2"))), f2b(float(caps.get("novelty_cap_per_node"))),
+                                int(caps.get("churn_cap_edges"))],
+                       "repeat_same": True, "perm_diff": None}
+        except Exception as e:
+            io = {"__raised__": type(e).__name__, "msg": str(e)[:200]}
+        outs.append({"io": io, "fresh": run_impl(c)})
+    return outs
+
+
+def eval_histories(hcases: List[dict]) -> List[Tuple[dict, List[Tuple[str, str]], List[Tuple[int, str, Any, Any]], List[dict]]]:
+    """→ per history: (case, failed monitors, correspondence diffs, per-call records)"""
+    runs = [run_history(h) for h in hcases]
+    flat = [(hi, ci) for hi, h in enumerate(hcases) for ci in range(len(h["history"]))]
+    resps = run_driver([COMP.request(hcases[hi]["history"][ci]) for hi, ci in flat])
+    midx = [j for j, (hi, ci) in enumerate(flat)
+            if not (isinstance(runs[hi][ci]["io"], dict) and "__raised__" in runs[hi][ci]["io"]) and COMP.lean_ok(runs[hi][ci]["io"])]
+    mres = run_driver([COMP.mon_request(hcases[flat[j][0]]["history"][flat[j][1]], runs[flat[j][0]][flat[j][1]]["io"]) for j in midx])
+    mon = dict(zip(midx, mres))
+    out = [(h, [], [], runs[hi]) for hi, h in enumerate(hcases)]
+    for j, (hi, ci) in enumerate(flat):
+        c = hcases[hi]["history"][ci]
+        io, fresh = runs[hi][ci]["io"], runs[hi][ci]["fresh"]
+        diff, mo, fails = evaluate(c, io, resps[j], mon.get(j))
+        for name, detail in fails:
+            out[hi][1].append((name, f"call {ci + 1}/{len(hcases[hi]['history'])}: {detail}"))
+        if diff is not None:
+            out[hi][2].append((ci, diff, io, mo))
+        raised = isinstance(io, dict) and "__raised__" in io
+        fresh_out = fresh.get("out") if isinstance(fresh, dict) else None
+        if not raised and fresh_out is not None and io["out"] != fresh_out:
+            from harness.core import first_diff, _canon
+            out[hi][1].append(("history_dependence",
+                               f"call {ci + 1}/{len(hcases[hi]['history'])} (after in-place edits {c.get('edits')}) differs from the same call on "
+                               f"fresh objects with identical argument values: "
+                               + first_diff(_canon(io['out']), _canon(fresh_out)).replace("impl=", "history=").replace("model=", "fresh=")))
+    return out
+
+
+def hist_tags(h: dict, runs: List[dict]) -> List[str]:
+    t = {f"calls={len(h['history'])}"}
+    for c in h["history"][1:]:
+        for e in c.get("edits", []):
+            t.add("edit:" + e)
+        if c.get("cd_replace"):
+            t.add("edit:cooldowns_replaced")
+    for r in runs:
+        io = r["io"]
+        if isinstance(io, dict) and "out" in io:
+            o = io["out"]
+            if o["blocked_ops"]:
+                t.add("blocked")
+            if o["novelty_clamped"]:
+                t.add("clamped")
+            if "DELTA_NORM_HIGH" in o["reasons"]:
+                t.add("scaled")
+            if o["counts"]["dropped_tail"]:
+                t.add("churn")
+    return sorted(t)
+
+
+def shrink_history(h: dict):
+    hist = h["history"]
+    if len(hist) > 2:
+        for j in range(len(hist)):
+            yield {"stream": "history", "history": hist[:j] + hist[j + 1:]}
+    nd = max(len(c["deltas"]) for c in hist)
+    for i in range(nd):
+        if all(len(c["deltas"]) > i for c in hist) and all(c["deltas"] == hist[0]["deltas"] for c in hist):
+            yield {"stream": "history", "history": [dict(c, deltas=c["deltas"][:i] + c["deltas"][i + 1:]) for c in hist]}
+    if all(c["last"] == hist[0]["last"] for c in hist) and hist[0]["last"]:
+        yield {"stream": "history", "history": [dict(c, last=c["last"][:-1]) for c in hist]}
+    for j, c in enumerate(hist):
+        if j > 0 and c.get("edits"):
+            # undo one edited field of a later call (take the previous call's value)
+            p = hist[j - 1]
+            for fld in ("turn", "last"):
+                if c[fld] != p[fld]:
+                    yield {"stream": "history", "history": hist[:j] + [dict(c, **{fld: p[fld]})] + hist[j + 1:]}
+            for kk in ("delta_norm_cap_l2", "novelty_cap_per_node", "churn_cap_edges", "cooldowns"):
+                if c["cfg"].get(kk) != p["cfg"].get(kk) and kk in p["cfg"]:
+                    yield {"stream": "history", "history": hist[:j] + [dict(c, cfg=dict(c["cfg"], **{kk: p["cfg"][kk]}))] + hist[j + 1:]}
+
+
+def check_histories(ctx: Ctx, hcases: List[dict]) -> None:
+    CH = 1500
+    first_fail: Dict[str, dict] = {}
+    for off in range(0, len(hcases), CH):
+        for h, fails, diffs, runs in eval_histories(hcases[off:off + CH]):
+            ctx.record_case(HIST_COMP, h, hist_tags(h, runs))
+            seen = set()
+            for name, detail in fails:
+                if name in seen:
+                    continue
+                seen.add(name)
+                kkey = f"{ctx.prop}:{HIST_COMP}:{name}" if name == "history_dependence" else f"{ctx.prop}:t4:{name}"
+                is_known = any(k.get("status", "open") == "open" and k.get("key") == kkey for k in ctx.known)
+                if name not in first_fail and not is_known:
+                    first_fail[name] = h
+                    h = _minimise_history(h, name)
+                    detail = next((d for n, d in eval_histories([h])[0][1] if n == name), detail)
+                # envelope monitors keep their ordinary class key (known findings apply); the history clause has its own
+                key = f"{ctx.prop}:{HIST_COMP}:{name}" if name == "history_dependence" else f"{ctx.prop}:t4:{name}"
+                ctx.monitor_fail(HIST_COMP, name, h, detail, [r["io"] for r in runs], key=key)
+            for ci, diff, io, mo in diffs[:1]:
+                ctx.mismatch(HIST_COMP, h, f"call {ci + 1}: {diff}", io.get("out", io) if isinstance(io, dict) else io, mo, deciding=True)
+
+
+def _minimise_history(h: dict, name: str) -> dict:
+    def still(c: dict) -> bool:
+        return any(n == name for n, _ in eval_histories([c])[0][1])
+
+    class _S:
+        @staticmethod
+        def shrink(c):
+            return shrink_history(c)
+    try:
+        return shrink_case(_S, h, still, limit=60)
+    except Exception:
+        return h
+
+
 def run(ctx: Ctx) -> None:
     comp = COMP
     n = int(comp.budget.get(ctx.tier, comp.budget["quick"]) * ctx.budget_scale)
@@ -815,6 +1090,12 @@ def run(ctx: Ctx) -> None:
         check_cases(ctx, list(enumerate_small()))
         ctx.extra["exhaustive"] = {"t4": "all delta lists of length <= 3 over 2 targets x 5 magnitudes x 3 op indices (2 ops, one in cooldown), k in {1, 64}"}
     float_gap_probe(ctx, 300 if ctx.tier == "quick" else 6000)
+    hrng = ctx.rng_for(HIST_COMP)
+    nh = int((400 if ctx.tier == "quick" else 8000) * ctx.budget_scale)
+    hcases = list(ctx.load_corpus(HIST_COMP))
+    ctx.per_component.setdefault(HIST_COMP, {"cases": 0, "nontrivial": 0})["corpus"] = len(hcases)
+    hcases += [gen_history(hrng) for _ in range(nh)]
+    check_histories(ctx, hcases)
     minimise_failures(ctx)
 
 
@@ -839,6 +1120,17 @@ def replay(ctx: Ctx, rec: dict) -> int:
     rc = 0
     for r in recs:
         case = r["case"]
+        if isinstance(case, dict) and "history" in case:
+            # re-create the whole call history on one set of objects
+            _h, fails, diffs, _runs = eval_histories([case])[0]
+            print(f"REPLAY component={HIST_COMP} calls={len(case['history'])} correspondence="
+                  f"{'agrees' if not diffs else 'DIFFERS call %d: %s' % (diffs[0][0] + 1, diffs[0][1])}")
+            for name, detail in fails:
+                print(f"REPLAY monitor {name} FAILS: {detail}")
+                rc = 1
+            if diffs:
+                rc = 1
+            continue
         io = run_impl(case)
         rs = run_driver([COMP.request(case)])[0]
         raised = isinstance(io, dict) and "__raised__" in io
